@@ -713,6 +713,12 @@ class Series:
     def __neg__(self):
         return self._new([NAN if isna(v) else -v for v in self._v])
 
+    def abs(self):
+        return self._new([NAN if isna(v) else abs(v) for v in self._v])
+
+    def round(self, decimals=0):
+        return self._new([NAN if isna(v) else round(v, decimals) for v in self._v])
+
     __hash__ = None
 
 
